@@ -128,7 +128,7 @@ func (vc *VC) instr(fr *Frame, st *State, ins ssa.Instruction) {
 		p := vc.val(fr, t.X)
 		vc.nilCheck(fr, st, t.X, p, t.Pos(), "fieldaddr")
 		fp := vc.defVal(fr, t, FldPtr(p, t.Field))
-		vc.q.Assert(vc.tyofAssume(fp, t.Type().Underlying().(*types.Pointer).Elem()))
+		vc.q.Assert(Implies(st.reach, vc.tyofAssume(fp, t.Type().Underlying().(*types.Pointer).Elem())))
 	case *ssa.Index:
 		x := vc.val(fr, t.X)
 		i := vc.asInt(vc.val(fr, t.Index))
@@ -151,7 +151,7 @@ func (vc *VC) instr(fr *Frame, st *State, ins ssa.Instruction) {
 			vc.boundsObl(fr, st, i, SLen(x), t.Pos())
 			_, isStruct := u.Elem().Underlying().(*types.Struct)
 			ep := vc.defVal(fr, t, SliceElemPtrT(x, i, isStruct))
-			vc.q.Assert(vc.tyofAssume(ep, u.Elem()))
+			vc.q.Assert(Implies(st.reach, vc.tyofAssume(ep, u.Elem())))
 		case *types.Pointer:
 			arr := u.Elem().Underlying().(*types.Array)
 			vc.nilCheck(fr, st, t.X, x, t.Pos(), "indexaddr")
